@@ -111,12 +111,33 @@ def opaque_children(v, acc):
     return acc
 
 
+# operand positions in which the ORMs themselves coerce a plain Python value to a bound parameter (documented behaviour of
+# SQLAlchemy's column operators and of Python operators on Django / SQLAlchemy expressions): assumed, listed in the evidence
+COERCING_METHODS = {"contains", "startswith", "endswith", "like", "ilike", "in_", "not_in", "notin_", "is_", "is_not", "isnot", "between",
+                    "concat", "__eq__", "__ne__", "__lt__", "__le__", "__gt__", "__ge__", "__add__", "__sub__", "__mul__", "__truediv__",
+                    "__mod__"}
+COERCING_FUNCS = {"operator.eq", "operator.ne", "operator.lt", "operator.le", "operator.gt", "operator.ge", "operator.add", "operator.sub",
+                  "operator.mul", "operator.truediv", "operator.mod", "operator.contains", "_operator.eq", "_operator.ne", "_operator.lt",
+                  "_operator.le", "_operator.gt", "_operator.ge", "_operator.add", "_operator.sub", "_operator.mul", "_operator.truediv",
+                  "_operator.mod"}
+
+
 def data_leaks(E, v, data_ids, inside_binder=False, acc=None):
-    """occurrences of filter-value terms outside a binder's argument"""
+    """occurrences of filter-value terms outside a binder's argument (or an operand position that binds)"""
     acc = [] if acc is None else acc
     if isinstance(v, ExtVal):
-        binder = v.name in BINDERS or v.name.rsplit(".", 1)[-1] in ("Value", "literal", "GEOSGeometry")
-        for a in list(v.args) + [x for _, x in v.kwargs]:
+        binder = v.name in BINDERS or v.name.rsplit(".", 1)[-1] in ("Value", "literal", "GEOSGeometry") or v.name in COERCING_FUNCS
+        args = list(v.args)
+        if v.name == "<call>" and args and isinstance(args[0], ExtVal) and args[0].name == "getattr" and len(args[0].args) == 2 \
+                and isinstance(args[0].args[1], str) and args[0].args[1] in COERCING_METHODS:
+            # expr.<operator method>(value, ...): the receiver is an expression, the operands are coerced to bound parameters
+            data_leaks(E, args[0], data_ids, inside_binder, acc)
+            for a in args[1:]:
+                data_leaks(E, a, data_ids, True, acc)
+            for k, x in v.kwargs:
+                data_leaks(E, x, data_ids, inside_binder, acc)      # keyword options (escape characters, flags) are not operands
+            return acc
+        for a in args + [x for _, x in v.kwargs]:
             data_leaks(E, a, data_ids, inside_binder or binder, acc)
     elif isinstance(v, (tuple, list)):
         for a in v:
